@@ -276,6 +276,9 @@ func (ex *Exec) arrRead(a *ArrObj, idx *Term) Value {
 	if a.recycled {
 		ex.violation("pool/use-after-put", fmt.Sprintf("read of recycled pool buffer #%d (got at %s)", a.id, a.getSite), nil)
 	}
+	if ex.monitor != nil && ex.monitorOn {
+		ex.monitorObj(a, false, ex.curSite())
+	}
 	if idx.IsConst() {
 		i := int(idx.val)
 		if i >= len(a.elems) {
@@ -311,6 +314,9 @@ func (ex *Exec) arrWrite(a *ArrObj, idx *Term, v Value) {
 		ex.violation("pool/use-after-put", fmt.Sprintf("write to recycled pool buffer #%d (got at %s)", a.id, a.getSite), nil)
 	}
 	ex.noteWriteArr(a)
+	if ex.monitor != nil && ex.monitorOn {
+		ex.monitorObj(a, true, ex.curSite())
+	}
 	if !idx.IsConst() {
 		if a.w >= 0 && len(a.elems) <= 64 {
 			nv := v.(*Term)
@@ -383,4 +389,11 @@ func typeString(t types.Type) string {
 		return "<nil>"
 	}
 	return types.TypeString(t, nil)
+}
+
+func (ex *Exec) curSite() ssa.Instruction {
+	if ex.cur != nil {
+		return ex.cur.site
+	}
+	return nil
 }
